@@ -595,8 +595,17 @@ pzgssvx(int_t nprocs, superlumt_options_t *superlumt_options, SuperMatrix *A,
 	for (i = 0; i < nprocs; ++i) flopcnt += Gstat.procstat[i].fcops;
 	ops[FACT] = flopcnt;
 
-	if ( superlumt_options->lwork == -1 ) {
-	    superlu_memusage->total_needed = *info - A->ncol;
+	if ( superlumt_options->lwork == -1 || *info > A->ncol ) {
+	    /* Workspace query, or memory ran out: there are no factors.
+	       Release the local objects before returning. */
+	    if ( superlumt_options->lwork == -1 )
+		superlu_memusage->total_needed = *info - A->ncol;
+	    Destroy_CompCol_Permuted(&AC);
+	    if ( A->Stype == SLU_NR ) {
+		Destroy_SuperMatrix_Store(AA);
+		SUPERLU_FREE(AA);
+	    }
+	    StatFree(&Gstat);
 	    return;
 	}
     }
